@@ -231,6 +231,17 @@ class C17(Prop):
                     out.fail("neighbour-after", "table after the sequence changed: %r" % (res[-1],))
                 if [c["name"] for c in res[-1]["columns"]] != KW_COLS[:8]:
                     out.fail("neighbour-after-columns", "%r" % [c["name"] for c in res[-1]["columns"]])
+            if len(ddl) % 3 == 0:
+                # option values are Python ints of any magnitude: the JSON view must carry the same numbers
+                import json
+
+                rj = loader.try_parse(ddl, json_dump=True)
+                out.parses += 1
+                out.label("json_view")
+                if rj[0] != "ok":
+                    out.fail("json-view-raises", "%s: %s; %r" % (rj[1], rj[2], ddl))
+                elif json.loads(rj[1]) != json.loads(json.dumps(res)):
+                    out.fail("json-view-differs", "run(json_dump=True) decodes to %r, run() returned %r; %r" % (json.loads(rj[1])[n_before:n_before + len(exp)], res[n_before:n_before + len(exp)], ddl))
         return out
 
 
